@@ -4,6 +4,7 @@ package main
 
 import (
 	"fmt"
+	"go/types"
 	"sort"
 	"strconv"
 	"strings"
@@ -118,6 +119,7 @@ func runC15(r *Report, tier string) {
 	r.rule("R15.2", "consistency table (path enumeration of the check): EC2: curve != reserved, some of x/y/d present, every coordinate <= curve size when the size is known, curve not an OKP/ECDH-only curve; OKP: curve != reserved, x or d present, x and d absent or 32 bytes, curve not a NIST P curve; symmetric: k non-empty; kty 0 refused; after the switch: algorithm absent, or ok(derive) and equal to the derived one; operation arms: verify needs the public point (x and y, resp. x), sign needs d.")
 	r.rule("R15.3", "key_ops gate: Key.Signer succeeds only under canOp(sign), ok(PrivateKey()) (itself under ok(check(sign)) and ok(derive)) and is NewSigner's verdict for AlgorithmOrDefault and that private key; Key.Verifier likewise with verify / PublicKey / NewVerifier; canOp returns true only for nil Ops or an element equal to the operation.")
 	r.rule("R15.4", "derive table: the algorithm derivation succeeds exactly for (EC2,P-256)->ES256, (EC2,P-384)->ES384, (EC2,P-521)->ES512, (OKP,Ed25519)->EdDSA; PublicKey/PrivateKey return a key only on arms of those algorithms.")
+	r.rule("R15.6", "key_ops carry-over: the loop of the key decoder that turns the wire key_ops list into KeyOp values stores one value per wire element on every continuing iteration (into a make(len(list)) slice at the loop index, or by append) and leaves the loop early only with an error: a present key_ops never shrinks, in particular not to the nil list that means unrestricted.")
 	r.rule("R15.5", "re-encode: Key.MarshalCBOR goes through the package encoder with normalised, de-duplicated labels (R08.6).")
 	r.assumes("on-curve validity is delegated to NewVerifier (R17.1); 'decodes to the same canonical bytes' rests on A4", "a wire key_ops that is present but empty decodes to nil Ops (unrestricted): not claimed either way")
 
@@ -535,10 +537,115 @@ func runC15(r *Report, tier string) {
 		}
 		r.ob("R15.5", shortFn(enc)+":encoder", enc, nil, "Key.MarshalCBOR returns the package's deterministic encoder output").check(ok, "encMode.Marshal", "the key encoder does not end in the package encoder")
 	}
+	checkKeyOpsCarried(r, "R15.6")
+}
+
+// checkKeyOpsCarried: R15.6.
+func checkKeyOpsCarried(r *Report, rule string) {
+	P := r.P
+	keyT := P.mustNamed("Key")
+	dec := P.methodOf(keyT, "UnmarshalCBOR")
+	if dec == nil {
+		undecidedf("anchor not found: Key.UnmarshalCBOR")
+	}
+	isKeyOp := func(t types.Type) bool { return isNamed(t, cosePath, "KeyOp") }
+	isKeyOps := func(t types.Type) bool {
+		sl, ok := t.Underlying().(*types.Slice)
+		return ok && isKeyOp(sl.Elem())
+	}
+	var fns []*ssa.Function
+	for f := range P.reachable([]*ssa.Function{dec}) {
+		if P.inPkg(f) {
+			fns = append(fns, f)
+		}
+	}
+	sort.Slice(fns, func(i, j int) bool { return fns[i].String() < fns[j].String() })
+	n := 0
+	for _, f := range fns {
+		for _, L := range findLoops(f) {
+			if L.over == nil || L.body == nil || !(L.kind == "slice-range" || L.kind == "counted") {
+				continue
+			}
+			if sl, ok := L.over.Type().Underlying().(*types.Slice); !ok || !types.IsInterface(sl.Elem()) {
+				continue
+			}
+			// the loop produces KeyOp values
+			produces := false
+			for b := range L.blocks {
+				for _, in := range b.Instrs {
+					if v, ok := in.(ssa.Value); ok && (isKeyOp(v.Type()) || isKeyOps(v.Type())) {
+						produces = true
+					}
+					if st, ok := in.(*ssa.Store); ok && isKeyOp(st.Val.Type()) {
+						produces = true
+					}
+				}
+			}
+			if !produces {
+				continue
+			}
+			n++
+			r.analysed(f)
+			o := r.ob(rule, shortFn(f)+":key_ops-loop", f, L.header.Instrs[len(L.header.Instrs)-1], "every wire key_ops element yields one stored KeyOp; the loop is left early only with an error")
+			why := ""
+			if !L.fullRange {
+				why = "the loop does not cover the whole wire list"
+			}
+			overT := P.terms.of(L.over)
+			for _, p := range P.enumPaths(f, L.body, func(b *ssa.BasicBlock) bool { return b == L.header }, false) {
+				if p.ret != nil {
+					fs := factSet{}
+					for _, c := range p.conds {
+						fs.add(c)
+					}
+					ei := errIndex(f)
+					if ei < 0 {
+						why = "the loop body returns from a function without an error result"
+					} else if k, _ := P.classifyErr(p.results()[ei], fs); k != exitFailure {
+						why = "the loop body can return success before the list is exhausted"
+					}
+					continue
+				}
+				stored := false
+				p.instrs(func(in ssa.Instruction) {
+					switch x := in.(type) {
+					case *ssa.Store:
+						ia, ok := x.Addr.(*ssa.IndexAddr)
+						if !ok || !isKeyOps(ia.X.Type()) {
+							return
+						}
+						// same position: the loop's own index, in a slice made with the list's length
+						it := p.eng.of(ia.Index)
+						xt := p.eng.of(ia.X)
+						sameIdx := it.eq(p.eng.of(L.idx))
+						if L.kind == "slice-range" {
+							sameIdx = sameIdx || ia.Index == L.idx
+						}
+						sized := xt.Op == "makeslice" && len(xt.Args) >= 1 && xt.Args[0].eq(tLen(overT))
+						if sameIdx && sized {
+							stored = true
+						}
+					case *ssa.Call:
+						if b, ok := x.Call.Value.(*ssa.Builtin); ok && b.Name() == "append" && isKeyOps(x.Type()) && len(x.Call.Args) == 2 {
+							// the appended list is the one the loop carries forward
+							stored = true
+						}
+					}
+				})
+				if !stored && why == "" {
+					why = "an iteration can continue without storing a KeyOp for its element (conditions: " + truncate(fmt.Sprint(p.conds), 160) + "): a present key_ops can shrink, down to the nil list that means unrestricted"
+				}
+			}
+			o.check(why == "", "one store per element at the loop index of make(len(list)), early exits are errors", why)
+		}
+	}
+	r.floor(rule, n, 1, "loops turning the wire key_ops list into KeyOp values")
 }
 
 func mutC15() []mutant {
 	return []mutant{
+		{Name: "reserved key_ops entries are skipped by the decoder", File: "key.go", Rule: "R15.6",
+			Old: "\t\t\tcase int64:\n\t\t\t\tk.Ops[i] = KeyOp(op)\n", New: "\t\t\tcase int64:\n\t\t\t\tif op == 0 {\n\t\t\t\t\tcontinue\n\t\t\t\t}\n\t\t\t\tk.Ops[i] = KeyOp(op)\n"},
 		{Name: "kty == 0 no longer refused by the decoder", File: "key.go", Quick: true, Rule: "R15.1",
 			Old: "\tif k.Type == KeyTypeReserved {\n\t\treturn errors.New(\"kty: invalid value 0\")\n\t}\n", New: ""},
 		{Name: "parameters with other label types are kept", File: "key.go", Rule: "R15.1",
